@@ -18,6 +18,8 @@ func BuildMethodParameters(parameters parser.IFormalParametersContext) []core_do
 		paramContext := param.(*parser.FormalParameterContext)
 		paramType := paramContext.TypeType().GetText()
 		paramValue := paramContext.VariableDeclaratorId().(*parser.VariableDeclaratorIdContext).Identifier().GetText()
+		// String args[]: the brackets after the name belong to the type
+		paramType += strings.TrimPrefix(paramContext.VariableDeclaratorId().GetText(), paramValue)
 
 		localVars[paramValue] = paramType
 		parameter := core_domain.NewCodeParameter(paramType, paramValue)
